@@ -52,6 +52,11 @@ const MALFORMED: &[(&str, &str, bool)] = &[
     ("version-major-comma", "OPENQASM 3,", false),
     ("version-major-then-string", "OPENQASM 3\"a\";", false),
     ("version-minor-not-a-number", "OPENQASM 3.x;", false),
+    ("version-nul-after-number", "OPENQASM 3.0\0;", false),
+    ("version-nul-after-major", "OPENQASM 3\0;", false),
+    ("version-nul-then-garbage", "OPENQASM 3.1\0abc;", false),
+    ("version-control-char-after-number", "OPENQASM 3.0\u{1};", false),
+    ("version-no-break-space-after-number", "OPENQASM 3\u{a0};", false),
     ("ident-with-emoji", "a😀b", false),
     ("ident-pragma-emoji", "pragma😀", false),
     ("ident-pragma-emoji-tail", "pragma😀abc", false),
@@ -149,6 +154,29 @@ fn after_suffixed_string_case(idx: u64, obs: &mut Obs) {
             obs.violate("malformed-lexeme-not-diagnosed/string-with-glued-identifier/first", format!("{text:?}: lexical errors at {errs:?}"));
         }
     }
+}
+
+/// Two malformed lexemes with nothing between them: the second starts with a character that cannot
+/// continue the first (a quote or `/*`), so both are lexemes of their own and each needs its diagnostic.
+const GLUED_SECOND: &[(&str, &str)] = &[("unterminated-string", "\"abc"), ("unterminated-string-sq", "'abc"), ("unterminated-bitstring", "\"0101"), ("unterminated-block-comment", "/* never closed")];
+
+fn glued_count() -> u64 {
+    (MALFORMED.iter().filter(|m| !m.2).count() * GLUED_SECOND.len() * 2) as u64
+}
+
+fn glued_case(idx: u64, obs: &mut Obs) {
+    let firsts: Vec<&(&str, &str, bool)> = MALFORMED.iter().filter(|m| !m.2).collect();
+    let lead = idx % 2 == 1;
+    let idx = (idx / 2) as usize;
+    let (n1, t1, _) = *firsts[idx % firsts.len()];
+    let (n2, t2) = GLUED_SECOND[(idx / firsts.len()) % GLUED_SECOND.len()];
+    // a version header is only a header at the start of the text; the others also after a statement
+    let prefix = if lead && !t1.starts_with("OPENQASM") { "int x = " } else { "" };
+    let text = format!("{prefix}{t1}{t2}");
+    let s1 = prefix.len();
+    let s2 = s1 + t1.len();
+    check_splice(&text, (s1, s2), n1, "first-of-two-glued", obs);
+    check_splice(&text, (s2, text.len()), n2, "second-of-two-glued", obs);
 }
 
 fn splice_count() -> u64 {
@@ -418,6 +446,7 @@ impl Property for C11 {
     fn streams(&self, tier: Tier, seed: u64) -> Vec<Stream> {
         let mut v = vec![
             Stream::new("malformed-lexeme-splice-table", splice_count(), true, |i| format!("splice:{i}")),
+            Stream::new("two-malformed-lexemes-glued", glued_count(), true, |i| format!("glued:{i}")),
             Stream::new("malformed-lexeme-after-a-suffixed-string", (MALFORMED.len() * SUFFIXED_STRINGS.len()) as u64, true, |i| format!("dbl:{i}")),
             Stream::new("pipeline-gating-programs", tier.pick(30_000, 1_500_000), false, move |i| format!("gate:{}", mix(&[seed, 0xC11, 1, i]))),
             Stream::new("pipeline-gating-include-chains", tier.pick(1_500, 40_000), false, move |i| format!("inc:{}", mix(&[seed, 0xC11, 2, i]))),
@@ -433,6 +462,10 @@ impl Property for C11 {
     fn check(&self, input: &str, obs: &mut Obs) {
         if let Some(rest) = input.strip_prefix("splice:") {
             splice_case(rest.parse().unwrap_or(0), obs);
+            return;
+        }
+        if let Some(rest) = input.strip_prefix("glued:") {
+            glued_case(rest.parse().unwrap_or(0), obs);
             return;
         }
         if let Some(rest) = input.strip_prefix("dbl:") {
